@@ -127,6 +127,15 @@ var (
 
 // Text draws a text string from the alphabet.
 func Text(t *rapid.T, label string, alphabet string, max int) string {
+	if alphabet == "bytes" {
+		// (binary only) a Go string is a byte sequence: one text in three holds bytes that are no valid UTF-8 - lone
+		// continuation bytes, truncated sequences, Latin-1 - which the wire carries as they are
+		if rapid.IntRange(0, 2).Draw(t, label+"rawbytes") == 0 {
+			b := rapid.SliceOfN(rapid.SampledFrom([]byte{0x80, 0xBF, 0xC3, 0xE2, 0x82, 0xF0, 0xFF, 0xFE, 0xE9, 'a', 'b', ' ', 0x00}), 1, 24).Draw(t, label+"raw")
+			return string(b)
+		}
+		alphabet = "utf8"
+	}
 	n := 0
 	switch rapid.IntRange(0, 4).Draw(t, label+"lenclass") {
 	case 0:
